@@ -103,6 +103,15 @@ ImplWrite(op, a) ==
     /\ want' = Len(EncBytes(op, a))
     /\ hist' = hist \o EncBytes(op, a)
 
+(* A call whose pre-flush is rejected by the output (the writer throws: disk full, EAGAIN on a non-blocking descriptor,  *)
+(* a short write): the call ends with that exception before anything of its own was appended, and what was staged     *)
+(* stays staged - the bytes of calls that returned normally are not lost, a later flush delivers them.                 *)
+(* Deviation "drop_on_fault": the staging buffer is rewound before the chunk is handed to the output.                  *)
+ImplWriteFault(op, a) ==
+    /\ Avail(buf) < Thr(op) /\ Len(buf) > 0
+    /\ buf' = IF Bug = "drop_on_fault" THEN <<>> ELSE buf
+    /\ UNCHANGED <<sink, hist, ret, want>>
+
 (* rotate_output / destructor: flush everything *)
 ImplFlush ==
     LET st == DoFlush([buf |-> buf, sink |-> sink]) IN
